@@ -5,7 +5,9 @@ from tools import tlaval
 RULE = ("MC: Lifecycle.tla (Control state machine, one udp socket per configured routine of which activate() serves only as many as the device has queues, goroutine classes bound to context/socket/device, stop at every phase, "
         "second stop, start after stop) with the liveness property StopReleases under weak fairness. R: every distinct "
         "environment history of that model containing a Stop is replayed on 3 complete nodes (lighthouse, A, B) in a synctest "
-        "bubble with each role as the node under test; distinct = (history, role)")
+        "bubble with each role as the node under test; stimuli include a rebind of the underlay socket (Control.RebindUDPServer) "
+        "and half of the histories run with handshakes.query_buffer: 0; Stop runs on its own goroutine and one that has not "
+        "returned after 3 virtual seconds is reported as hanging; distinct = (history, role)")
 ASSUMPTIONS = [
     "goroutines are attributed through the synctest bubble: after the history all nodes and harness helpers are stopped and "
     "every goroutine still in the bubble is a leak",
@@ -35,7 +37,7 @@ def run(ctx):
         json.dump({'histories': [list(h) for h in hl]}, f)
     res = ctx.gotest('e2e', 'TestVerif_C49', tags='verif e2e_testing', also=('net',), timeout=600 if ctx.quick else 1500)
     ctx.take_mismatches(res)
-    ctx.require_actions('Stop', 'Start', 'reload', 'lighthouse', 'hs2', 'routines:2', 'sockets:2', 'sockets:1', 'punchburst:sent')
+    ctx.require_actions('Stop', 'Start', 'reload', 'lighthouse', 'hs2', 'routines:2', 'sockets:2', 'sockets:1', 'punchburst:sent', 'rebind:on-started-node', 'query_buffer:0')
 
 
 META = {
